@@ -327,7 +327,7 @@ func slicesDeleteFunc[T any](s []T, f func(T) bool) []T {
 
 // engLockOracle: C08 on the real shards' state: an object with an accepted, unexpired lock is retrievable for
 // every visiting order, i.e. some shard holds it and no shard with a metabase reports it removed or expired.
-func engLockOracle(c *runCtx, vs []engShardView, lock, t int) {
+func engLockOracle(c *runCtx, vs []engShardView, lock, t int, missed bool) {
 	held, bad, suspended := false, false, false
 	noLock, codes := 0, ""
 	for i := range vs {
@@ -354,8 +354,8 @@ func engLockOracle(c *runCtx, vs []engShardView, lock, t int) {
 		return
 	}
 	engOracle(c, "locked-object-retrievable-for-every-order", held && !bad,
-		fmt.Sprintf("object %d has the accepted, unexpired lock %d but is not retrievable for every order: held=%v removed-or-expired-somewhere=%v holders-without-lock=%d holder-codes=%s.",
-			t, lock, held, bad, noLock, codes))
+		fmt.Sprintf("object %d has the accepted, unexpired lock %d but is not retrievable for every order: held=%v removed-or-expired-somewhere=%v holders-without-lock=%d holder-codes=%s. lock-missed-by-a-holder-at-acceptance=%v",
+			t, lock, held, bad, noLock, codes, missed))
 }
 
 // engEvacOracle: C19 on the real shards' state before and after an evacuation.
@@ -463,7 +463,10 @@ func engExec(c *runCtx, ops []string) {
 	// shadow of what the engine acknowledged (for the history-level oracles)
 	removedAck := map[int]bool{}
 	forcedDel := map[int]bool{} // a forced removal (Engine.Delete/Drop) was issued since the object was last stored
-	type lockRec struct{ lock, target, exp int }
+	type lockRec struct {
+		lock, target, exp int
+		missed            bool // some holder of the target did not index the lock when it was accepted (known finding C08)
+	}
 	var locks []lockRec // locks the engine accepted for an object it stored
 	epoch := 0
 	for _, line := range ops {
@@ -504,7 +507,13 @@ func engExec(c *runCtx, ops []string) {
 			}
 			if err == nil && o.kv["k"] == "reg" {
 				delete(removedAck, o.int("o")) // stored (again): the earlier removal no longer describes the state
-				delete(forcedDel, o.int("o"))
+				heldBefore := false
+				for i := range before {
+					heldBefore = heldBefore || before[i].holdsNoFault(o.int("o"))
+				}
+				if !heldBefore { // a put of an object that is still served is a no-op: the pending forced removal stays
+					delete(forcedDel, o.int("o"))
+				}
 			}
 			if err == nil && o.kv["k"] == "lock" {
 				t, stored := o.int("t"), false
@@ -515,7 +524,15 @@ func engExec(c *runCtx, ops []string) {
 				// again is not "an object it stores", even while its bytes wait for the collector
 				// (a forced removal overrides locks by design, also the locks that arrive before the collector ran)
 				if stored && t >= 1 && t <= engNO && !removedAck[t] && !forcedDel[t] {
-					locks = append(locks, lockRec{o.int("o"), t, o.int("exp")})
+					lr := lockRec{lock: o.int("o"), target: t, exp: o.int("exp")}
+					post = append(post, func(after []engShardView) {
+						for i := range after { // a holder with a metabase that does not know the lock it should have got
+							if !after[i].mode.NoMetabase() && after[i].blob[t] && !after[i].locked[t] {
+								lr.missed = true
+							}
+						}
+						locks = append(locks, lr)
+					})
 				}
 			}
 		case "get", "head":
@@ -640,7 +657,7 @@ func engExec(c *runCtx, ops []string) {
 				if l.exp != 0 && epoch > l.exp {
 					continue // the lock has expired
 				}
-				engLockOracle(c, after, l.lock, l.target)
+				engLockOracle(c, after, l.lock, l.target, l.missed)
 			}
 		}
 	}
